@@ -181,7 +181,9 @@ class RunBundler:
         self.log.debug("Stopping run %r", self._run_start_uid)
         # Clear any uncleared monitoring callbacks.
         for obj, (cb, kwargs) in list(self._monitor_params.items()):  # noqa: B007
-            obj.clear_sub(cb)
+            if not getattr(self, "_monitors_suspended", False):
+                # (a pause or suspension has already unsubscribed suspended monitors)
+                obj.clear_sub(cb)
             del self._monitor_params[obj]
         reason = msg.kwargs.get("reason", None)
         if reason is None:
@@ -515,7 +517,8 @@ class RunBundler:
         if obj not in self._monitor_params:
             raise IllegalMessageSequence(f"Cannot 'unmonitor' {obj}; it is not being monitored.")
         cb, kwargs = self._monitor_params[obj]
-        obj.clear_sub(cb)
+        if not getattr(self, "_monitors_suspended", False):
+            obj.clear_sub(cb)
         del self._monitor_params[obj]
         await self.reset_checkpoint_state_coro()
 
@@ -613,7 +616,8 @@ class RunBundler:
     def clear_monitors(self):
         for obj, (cb, kwargs) in list(self._monitor_params.items()):  # noqa: B007
             try:
-                obj.clear_sub(cb)
+                if not getattr(self, "_monitors_suspended", False):
+                    obj.clear_sub(cb)
             except Exception:
                 self.log.exception("Failed to stop monitoring %r.", obj)
             else:
